@@ -177,7 +177,48 @@ def run_determinism(args):
     return rc
 
 
+def run_model(args):
+    """The canonical model of refmodel.py against an independent derivation with numpy.fft: for a real
+    signal, |FFT|^2 is the two-sided spectrum, fftshift gives the centre-DC ordering and fftfreq the
+    axes; the one-sided spectrum is the fold.  Also: every rendering of a model rebuilt from any
+    rendering is the same vector (the model is a fixed point)."""
+    import numpy as np
+    from . import refmodel as R
+    rng = np.random.RandomState(12345)
+    bad = 0
+    n = 0
+    for M in range(1, 130):
+        x = rng.randn(M)
+        T = np.abs(np.fft.fft(x)) ** 2
+        f = np.rint(np.fft.fftfreq(M) * M)   # signed integer bins in FFT order
+        cen = R.render(T, "centerdc")
+        one = R.render(T, "onesided")
+        n += 1
+        ok = np.array_equal(cen, np.fft.fftshift(T))
+        ok &= np.array_equal(np.array(R.bins_of("centerdc", M)), np.fft.fftshift(f).astype(int))
+        ok &= len(one) == len(np.fft.rfft(x))
+        fold = np.zeros(len(one))
+        for k in range(M):
+            fold[int(abs(f[k]))] += T[k]
+        ok &= bool(np.allclose(one, fold, rtol=1e-13, atol=0))
+        ok &= abs(one.sum() - T.sum()) <= 1e-12 * T.sum()
+        for s in ("onesided", "twosided", "centerdc"):
+            T2 = R.canonical_from(R.render(T, s), s, M)
+            for t in ("onesided", "twosided", "centerdc"):
+                ok &= bool(np.allclose(R.render(T2, t), R.render(T, t), rtol=1e-13, atol=0))
+        # exactness of the halving round trip on the distinct-value vectors the machine uses
+        v = np.array([4.0 * (2 * i + 1) for i in range(R.n_onesided(M))])
+        ok &= np.array_equal(R.render(R.canonical_from(v, "onesided", M), "onesided"), v)
+        if not ok:
+            bad += 1
+            print("model mismatch at M=%d" % M)
+    print("reference model: %d sizes checked against numpy.fft (fftshift, fftfreq, rfft length, fold), %d mismatches" % (n, bad))
+    return 0 if bad == 0 else 1
+
+
 def main(args):
     if args.mutants:
         return run_mutants(args)
+    if getattr(args, "model", False):
+        return run_model(args)
     return run_determinism(args)
